@@ -34,7 +34,20 @@ MODELLED = [
 ]
 ASSUMPTIONS = ["parameters in their declared domain (eta1, eta2, sigma_j, lambda+-, G, M > 0; 0 <= p <= 1; intensity >= 0)",
                "finite end points are strictly inside (-INF, INF) where INF stands for the float infinity"]
-THEOREM_NOTES = {}
+THEOREM_NOTES = {
+    "C09_hem_mass/_x/_xx/_left_halfline/_right_halfline": "complete for HEM: every parameter set, every finite a <= b on either side of 0 or straddling, "
+        "half-line values as limits of the finite integrals",
+    "C09_xn_exp_partial": "every n and every finite a <= b; the half-line branches (a = -inf, b = +inf) of integral_xn_exp_minus_x are modelled "
+        "(integral_xn_exp_left/right) but not proved as limits; oracle only",
+    "C09_vg_*_partial": "finite end points (mass: one side of zero, where it is finite); half-line values (exp(-inf) = 0, exp1(x) alone) oracle only",
+    "C09_merton_*_partial": "finite end points; erf(+-inf) = +-1 needs the Gaussian integral (not in Coquelicot): half-lines oracle only",
+    "C09_cgmy_*_partial": "0 < a <= b or a <= b < 0; mass for y not in {0,1} (code path y < 1), first moment for y <> 1; y in {0,1} (exp1), the y >= 1 "
+        "recursion, end points at 0 (the y < 0 fix), integrate_against_xx (scipy.quad) are covered by the oracle only",
+    "C09_additive / C09_sign / C09_truncated": "generic in the closed form: hold for every F with is_RInt (x^n nu) a b (F a b); instantiated for HEM, "
+        "x^n exp, VG n-th moments, Merton; these are the `Section Measure` hypotheses (mass_add, mass_pos) of C01/C03/C04",
+    "C09_xn_exp_refuted / C09_base_xn0_refuted / C09_vg_xn_refuted": "witnesses about the code BEFORE the fix: commits (models *_old); findings F-C09-1/2/3",
+    "generic quadrature fallbacks (n >= 3 for HEM/Merton/CGMY, CGMY second moment)": "no theorem: scipy.integrate.quad is modelled by its specification only",
+}
 
 QUICK = dict(n_random=2, reps=1, coq_per_group=6)
 THOROUGH = dict(n_random=14, reps=4, coq_per_group=60)
@@ -436,12 +449,28 @@ def _coq(res, rng):
 
 
 def correspond(res):
+    import warnings
+    warnings.filterwarnings("ignore")
     rng = random.Random(res.seed)
     _oracle(res, rng)
     _coq(res, random.Random(res.seed + 1))
 
 
+def search(res):
+    """deeper oracle sweep when a proof obligation / case lemma broke but the quick oracle found no failing input"""
+    import copy
+    saved = dict(QUICK)
+    QUICK.update(n_random=8, reps=2)
+    try:
+        _oracle(res, random.Random(res.seed + 7))
+    finally:
+        QUICK.clear()
+        QUICK.update(saved)
+
+
 def replay(path):
+    import warnings
+    warnings.filterwarnings("ignore")
     data = json.load(open(path))
     print(json.dumps(data, indent=1)[:3000])
     k = data.get("kind")
@@ -472,6 +501,16 @@ def replay(path):
     return 1
 
 
-LEVEL_TEXT = ""
-LEVEL_NOTE = ""
+LEVEL_TEXT = ("Proof (partial): 31 Coq theorems over R (Coquelicot). For the HEM model the mass, first and second moment closed forms - "
+              "re-translated from hem.py by py2coq on every run - are proved to be the Riemann integral of x^n times the generated density for all "
+              "parameters and all finite a <= b (either side of zero or straddling), with the half-line values as limits; the integral of "
+              "x^n exp(-alpha|x|) is proved for every n by induction; VG (first/second/n-th moments, mass through the exponential integral), "
+              "Merton (through erf by substitution) and CGMY (one side of zero, incomplete-gamma branch) are proved for finite end points only "
+              "(theorems named _partial). Additivity over adjacent intervals, the sign rules and the truncated-measure clause are proved once for "
+              "every closed form that is an integral of x^n nu and instantiated per model. The tie to the source is the translator plus "
+              "~140 (quick) / ~1300 (thorough) interval-arithmetic case lemmas comparing the Coq closed forms with the implementation's floats. "
+              "Improper integrals for VG/Merton/CGMY, CGMY y in {0,1}, y >= 1 and every scipy.quad fallback are checked only by the mpmath oracle.")
+LEVEL_NOTE = ("Trusted: Coq kernel + vm_compute (Interval's reflexive checker), standard real/classical axioms (reported by Print Assumptions), "
+              "py2coq (fail-closed), float infinity modelled as a real parameter INF, exp(-inf)=0/erf(inf)=1 float semantics, scipy special "
+              "functions modelled by their defining integrals and tied by `integral` case lemmas, scipy.quad modelled by specification.")
 TECHNIQUE = "Coq proof over R (Coquelicot is_RInt / is_derive, fundamental theorem of calculus) on py2coq-generated closed forms + Interval case lemmas"
